@@ -112,6 +112,7 @@ UNIT_DRIVERS = {
     "flush_protocol": ["wal::crash_enum_quick", "snapshot::timetravel_enum_quick"],
     "queue_dequeue": ["transaction::conflict_enum"],
     "bptree_freelist": ["bptree_enum_quick"],
+    "arena_bound": ["commit::oversize_enum"],
     "oracle_restore": ["levels::checkpoint_enum_quick"],
     "vlog_file": ["sstable::table::min_vlog_file_id_enum"],
     "lock_order": ["transaction::cursor_enum_quick"],
